@@ -276,4 +276,27 @@ Proof.
   intros -> Hd. unfold bls_verify. rewrite Hd. apply (F_eqb O L). ring.
 Qed.
 
+(* recovery never panics: it is an error or the group signature *)
+Theorem recover_cases (sigs : list (list N)) (t : Z) :
+  (n <= nmax)%Z -> (Z.of_nat (length f) <= t)%Z ->
+  recover O d0 dec f hm sigs t n = Err \/ recover O d0 dec f hm sigs t n = Ok (hd 0 f * hm).
+Proof.
+  intros Hn Hf. unfold recover.
+  set (R := collect O dec f hm (uniq sigs) t n []).
+  assert (Hg : good (uniq sigs) R).
+  { apply collect_good; [apply incl_refl|]. split; [constructor|intros e []]. }
+  destruct Hg as [HndR Hall].
+  assert (Hk : kept (to_pshares R) n None = R).
+  { apply kept_to_pshares. intros e He. apply (Hall e He). }
+  destruct (Z.ltb (Z.of_nat (length R)) t) eqn:Et.
+  - left. apply Z.ltb_lt in Et. apply recover_commit_too_few. rewrite Hk. exact Et.
+  - right. apply Z.ltb_ge in Et.
+    rewrite (recover_commit_ok O M L self_glaws nmax NL d0 f hm (to_pshares R) t n Hn); rewrite ?Hk.
+    + reflexivity.
+    + exact Et.
+    + lia.
+    + exact HndR.
+    + intros iv Hiv. destruct (Hall iv Hiv) as [_ [E _]]. rewrite E. cbn [self_gops gscale]. ring.
+Qed.
+
 End TblsProofs.
